@@ -18,10 +18,12 @@ import (
 	"strings"
 
 	"github.com/sarchlab/akita/v4/mem/mem"
+	"github.com/sarchlab/akita/v4/mem/vm"
 	"github.com/sarchlab/akita/v4/sim"
 	"github.com/sarchlab/mgpusim/v4/amd/emu"
 	"github.com/sarchlab/mgpusim/v4/amd/insts"
 	"github.com/sarchlab/mgpusim/v4/amd/kernels"
+	"github.com/sarchlab/mgpusim/v4/amd/protocol"
 	"github.com/sarchlab/mgpusim/v4/amd/timing/cu"
 	"github.com/sarchlab/mgpusim/v4/amd/timing/wavefront"
 
@@ -65,6 +67,7 @@ type Acc struct {
 	Data []int  `json:"data,omitempty"`
 	Val  uint64 `json:"val,omitempty"`
 	Lanes []int `json:"lanes,omitempty"` // vload: the lanes that receive Cnt dwords each (Data back to back)
+	Fresh *Fresh `json:"fresh,omitempty"` // newgen: the newly dispatched wavefronts before anybody touched them
 	Emu  *Obs   `json:"emu,omitempty"`
 	Tim  *Obs   `json:"tim,omitempty"`
 }
@@ -91,13 +94,33 @@ type TimDump struct {
 	M0   []uint64    `json:"m0"`
 }
 
+// FreshDump is what a newly dispatched wavefront looks like before anybody touched it.
+type FreshDump struct {
+	Vcc  uint64      `json:"vcc"`
+	Exec uint64      `json:"exec"`
+	Scc  uint64      `json:"scc"`
+	M0   uint64      `json:"m0"`
+	S    [][2]uint64 `json:"s"` // non-zero scalar registers (index, dword), capped
+	V    [][3]uint64 `json:"v"` // non-zero vector registers other than the dispatcher's v0 = work-item id (lane, index, dword), capped
+	V0OK bool        `json:"v0ok"` // v0 of lane l holds the work-item id 64*w + l
+	NS   int         `json:"ns"`
+	NV   int         `json:"nv"`
+}
+
+type Fresh struct {
+	Emu []FreshDump `json:"emu"`
+	Tim []FreshDump `json:"tim"`
+}
+
 type Case struct {
 	Waves   []Wave    `json:"waves"`
 	Hostile bool      `json:"hostile"`
 	Accs    []Acc     `json:"accs"`
+	Fresh0  *Fresh    `json:"fresh0,omitempty"` // the wavefronts of the first work-group right after dispatch
 	EmuEnd  []EmuDump `json:"emu_end,omitempty"`
 	TimEnd  *TimDump  `json:"tim_end,omitempty"`
-	Coq     string    `json:"coq,omitempty"`
+	Coq     []string  `json:"coq,omitempty"` // one term per wavefront generation
+	DecoderCountDrift []string `json:"decoder_count_drift,omitempty"` // decoder operands whose RegCount is not what the instruction's width says
 }
 
 // ---------------------------------------------------------------- initial fill
@@ -130,17 +153,214 @@ func vInit(waves []Wave, simd, a int) byte {
 
 // ---------------------------------------------------------------- the two implementations
 
+// hookALU is the ALU of the real emulation compute unit: instead of executing
+// the instruction it hands the wavefront object the compute unit created to the harness.
+type hookALU struct {
+	lds []byte
+	run func(wf *emu.Wavefront)
+}
+
+func (a *hookALU) Run(state emu.InstEmuState) { a.run(state.(*emu.Wavefront)) }
+func (a *hookALU) SetLDS(lds []byte)          { a.lds = lds }
+func (a *hookALU) LDS() []byte                { return a.lds }
+func (a *hookALU) ArchName() string           { return "GCN3" }
+
+// progMem serves the machine code every wavefront runs:
+//   s_nop 0; s_barrier; s_nop 0; s_endpgm
+// (at the first s_nop each wavefront object is captured; at the second s_nop
+// of the first wavefront all objects of the work-group are known and the
+// harness runs its accesses on them.)
+type progMem struct{}
+
+const progBase = 0x1000
+
+var progWords = []uint32{0xBF800000, 0xBF8A0000, 0xBF800000, 0xBF810000}
+
+func (progMem) Read(_ vm.PID, vAddr, n uint64) []byte {
+	out := make([]byte, n)
+	for i := range out {
+		k := int(vAddr-progBase) + i
+		if k >= 0 && k < 4*len(progWords) {
+			out[i] = byte(progWords[k/4] >> (8 * (k % 4)))
+		}
+	}
+	return out
+}
+func (progMem) Write(vm.PID, uint64, []byte) {}
+
 type world struct {
-	waves []Wave
-	ewf   []*emu.Wavefront
-	cu    *cu.ComputeUnit
-	twf   []*wavefront.Wavefront
+	waves  []Wave
+	engine sim.Engine
+	ecu    *emu.ComputeUnit
+	alu    *hookALU
+	ewf    []*emu.Wavefront
+	cu     *cu.ComputeUnit
+	twf    []*wavefront.Wavefront
+	gen    int
 }
 
 func newWorld(waves []Wave) *world {
-	x := &world{waves: waves}
-	for w := range waves {
-		e := emu.NewWavefront(kernels.NewWavefront())
+	x := &world{waves: waves, engine: sim.NewSerialEngine()}
+	// the real emulation compute unit with the real disassembler; wavefront objects come from its initWfs
+	x.alu = &hookALU{}
+	x.ecu = emu.NewComputeUnit("EmuCU", x.engine, insts.NewDisassembler(), x.alu, progMem{})
+	conn := &vh.StubConn{}
+	conn.PlugIn(x.ecu.ToDispatcher)
+	// a real timing compute unit from the public builder (3200 SGPRs, 4 x 16384 VGPRs), ports on a stub connection
+	x.cu = cu.MakeBuilder().WithEngine(sim.NewSerialEngine()).Build("CU")
+	for _, p := range []sim.Port{x.cu.ToACE, x.cu.ToCP, x.cu.ToInstMem, x.cu.ToScalarMem, x.cu.ToVectorMem} {
+		conn.PlugIn(p)
+	}
+	if len(x.cu.VRegFile) != numSIMD {
+		panic("the CU builder no longer makes four SIMD register files")
+	}
+	return x
+}
+
+// newWG makes the work-group (one wavefront per co-resident wavefront of the
+// layout) that both compute units receive for one generation.
+func (x *world) newWG() *kernels.WorkGroup {
+	nw := len(x.waves)
+	pkt := &kernels.HsaKernelDispatchPacket{WorkgroupSizeX: uint16(64 * nw), WorkgroupSizeY: 1, WorkgroupSizeZ: 1,
+		GridSizeX: uint32(64 * nw), GridSizeY: 1, GridSizeZ: 1, KernelObject: progBase}
+	wg := kernels.NewWorkGroup()
+	wg.Packet = pkt
+	wg.SizeX, wg.SizeY, wg.SizeZ = 64*nw, 1, 1
+	wg.CurrSizeX, wg.CurrSizeY, wg.CurrSizeZ = 64*nw, 1, 1
+	for w, wv := range x.waves {
+		raw := kernels.NewWavefront()
+		raw.CodeObject = &insts.KernelCodeObject{Version: insts.CodeObjectV3, KernelCodeObjectMeta: &insts.KernelCodeObjectMeta{
+			WFSgprCount: uint16(wv.NSgpr), WIVgprCount: uint16(wv.NVgpr)}}
+		raw.Packet = pkt
+		raw.FirstWiFlatID = 64 * w
+		raw.WG = wg
+		raw.InitExecMask = ^uint64(0)
+		wg.Wavefronts = append(wg.Wavefronts, raw)
+	}
+	wg.CodeObject = wg.Wavefronts[0].CodeObject
+	return wg
+}
+
+// generation dispatches a new work-group to both compute units — the way the
+// command processor does: emulation through MapWGReq (the compute unit builds
+// its wavefront objects in initWfs), timing through a release of the previous
+// occupants followed by WfDispatcher.DispatchWf on new wavefront objects at
+// the same register-file offsets — and calls body while the wavefronts live.
+func (x *world) generation(body func()) {
+	wg := x.newWG()
+	b := protocol.MapWGReqBuilder{}.WithSrc(sim.RemotePort("Dispatcher")).WithDst(x.ecu.ToDispatcher.AsRemote()).
+		WithWG(wg).WithPID(1)
+	for w, wv := range x.waves {
+		b = b.AddWf(protocol.WfDispatchLocation{Wavefront: wg.Wavefronts[w], SIMDID: wv.SIMD, VGPROffset: wv.VOff, SGPROffset: wv.SOff})
+	}
+	req := b.Build()
+	twg := wavefront.NewWorkGroup(wg, req)
+	// timing side
+	for _, old := range x.twf {
+		cu.VerifResetRegisterValue(x.cu, old) // register release at the end of the previous occupant
+	}
+	x.twf = nil
+	for w, wv := range x.waves {
+		t := wavefront.NewWavefront(wg.Wavefronts[w])
+		t.WG = twg
+		twg.Wfs = append(twg.Wfs, t)
+		t.RegAccessor = &cu.CURegFileAccessor{CU: x.cu, WF: t}
+		x.cu.WfDispatcher.DispatchWf(t, protocol.WfDispatchLocation{
+			Wavefront: wg.Wavefronts[w], SIMDID: wv.SIMD, VGPROffset: wv.VOff, SGPROffset: wv.SOff})
+		x.twf = append(x.twf, t)
+	}
+	// emulation side
+	x.ewf = nil
+	ran := false
+	x.alu.run = func(wf *emu.Wavefront) {
+		if len(x.ewf) < len(x.waves) {
+			x.ewf = append(x.ewf, wf) // first s_nop of each wavefront, in work-group order
+			return
+		}
+		if !ran {
+			ran = true
+			body()
+		}
+	}
+	if err := x.ecu.ToDispatcher.Deliver(req); err != nil {
+		panic("emu CU did not accept the MapWGReq")
+	}
+	x.ecu.Tick()
+	if err := x.engine.Run(); err != nil {
+		panic(err)
+	}
+	for x.ecu.ToDispatcher.RetrieveOutgoing() != nil { // the completion message: the work-group is gone
+	}
+	if !ran {
+		panic("the emulation compute unit did not run the work-group")
+	}
+	x.gen++
+}
+
+func le32(b []byte) uint32 { return binary.LittleEndian.Uint32(b) }
+
+// fresh records what the newly dispatched wavefronts look like.
+func (x *world) fresh() *Fresh {
+	f := &Fresh{}
+	for w, e := range x.ewf {
+		d := FreshDump{Vcc: e.VCC(), Exec: e.EXEC(), Scc: uint64(e.SCC()), M0: uint64(e.M0), S: [][2]uint64{}, V: [][3]uint64{}, V0OK: true}
+		for i := 0; i < 102; i++ {
+			if v := e.SRegValue(i); v != 0 {
+				if d.NS++; d.NS <= 64 {
+					d.S = append(d.S, [2]uint64{uint64(i), uint64(v)})
+				}
+			}
+		}
+		for l := 0; l < 64; l++ {
+			if e.VRegValue(l, 0) != uint32(64*w+l) {
+				d.V0OK = false
+			}
+			for i := 1; i < 256; i++ {
+				if v := e.VRegValue(l, i); v != 0 {
+					if d.NV++; d.NV <= 64 {
+						d.V = append(d.V, [3]uint64{uint64(l), uint64(i), uint64(v)})
+					}
+				}
+			}
+		}
+		f.Emu = append(f.Emu, d)
+	}
+	for w, t := range x.twf {
+		wv := x.waves[w]
+		d := FreshDump{Vcc: t.VCC(), Exec: t.EXEC(), Scc: uint64(t.SCC()), M0: uint64(t.M0), S: [][2]uint64{}, V: [][3]uint64{}, V0OK: true}
+		sb := make([]byte, 4*wv.NSgpr)
+		x.cu.SRegFile.Read(cu.RegisterAccess{Reg: insts.SReg(0), RegCount: wv.NSgpr, WaveOffset: wv.SOff, Data: sb})
+		for i := 0; i < wv.NSgpr; i++ {
+			if v := le32(sb[4*i:]); v != 0 {
+				if d.NS++; d.NS <= 64 {
+					d.S = append(d.S, [2]uint64{uint64(i), uint64(v)})
+				}
+			}
+		}
+		vb := make([]byte, 4*wv.NVgpr)
+		for l := 0; l < 64; l++ {
+			x.cu.VRegFile[wv.SIMD].Read(cu.RegisterAccess{Reg: insts.VReg(0), RegCount: wv.NVgpr, LaneID: l, WaveOffset: wv.VOff, Data: vb})
+			if le32(vb) != uint32(64*w+l) {
+				d.V0OK = false
+			}
+			for i := 1; i < wv.NVgpr; i++ {
+				if v := le32(vb[4*i:]); v != 0 {
+					if d.NV++; d.NV <= 64 {
+						d.V = append(d.V, [3]uint64{uint64(l), uint64(i), uint64(v)})
+					}
+				}
+			}
+		}
+		f.Tim = append(f.Tim, d)
+	}
+	return f
+}
+
+// fill overwrites every register of both sides with the position-dependent
+// pattern: the histories start from arbitrary contents.
+func (x *world) fill() {
+	waves := x.waves
+	for w, e := range x.ewf {
 		for a := range e.SRegFile {
 			e.SRegFile[a] = pat(w+1, a)
 		}
@@ -151,16 +371,6 @@ func newWorld(waves []Wave) *world {
 		e.SetEXEC(exec0(w))
 		e.SetSCC(scc0(w))
 		e.M0 = m00(w)
-		x.ewf = append(x.ewf, e)
-	}
-	// a real compute unit from the public builder (3200 SGPRs, 4 x 16384 VGPRs), ports on a stub connection
-	x.cu = cu.MakeBuilder().WithEngine(sim.NewSerialEngine()).Build("CU")
-	conn := &vh.StubConn{}
-	for _, p := range []sim.Port{x.cu.ToACE, x.cu.ToCP, x.cu.ToInstMem, x.cu.ToScalarMem, x.cu.ToVectorMem} {
-		conn.PlugIn(p)
-	}
-	if len(x.cu.VRegFile) != numSIMD {
-		panic("the CU builder no longer makes four SIMD register files")
 	}
 	buf := make([]byte, sFileBytes)
 	for a := range buf {
@@ -174,20 +384,12 @@ func newWorld(waves []Wave) *world {
 		}
 		fillFile(x.cu.VRegFile[s], insts.VReg(0), vb)
 	}
-	for w, wv := range waves {
-		raw := kernels.NewWavefront()
-		raw.CodeObject = &insts.KernelCodeObject{KernelCodeObjectMeta: &insts.KernelCodeObjectMeta{
-			WFSgprCount: uint16(wv.NSgpr), WIVgprCount: uint16(wv.NVgpr)}}
-		t := wavefront.NewWavefront(raw)
-		t.SIMDID, t.SRegOffset, t.VRegOffset = wv.SIMD, wv.SOff, wv.VOff
+	for w, t := range x.twf {
 		t.SetVCC(vcc0(w))
 		t.SetEXEC(exec0(w))
 		t.SetSCC(scc0(w))
 		t.M0 = m00(w)
-		t.RegAccessor = &cu.CURegFileAccessor{CU: x.cu, WF: t}
-		x.twf = append(x.twf, t)
 	}
-	return x
 }
 
 // fillFile / readFile move a whole register file through the RegisterFile API:
@@ -230,6 +432,111 @@ func operand(a *Acc) *insts.Operand {
 	panic("unknown register " + a.Reg)
 }
 
+// ---------------------------------------------------------------- operands from the real decoder
+
+var disasm = insts.NewDisassembler()
+
+// kept alive like the instruction caches of the compute units keep decoded instructions
+var decodedInsts []*insts.Inst
+
+func decodeWords(words ...uint32) *insts.Inst {
+	buf := make([]byte, 16)
+	for i, w := range words {
+		binary.LittleEndian.PutUint32(buf[4*i:], w)
+	}
+	inst, err := func() (i *insts.Inst, e error) {
+		defer func() {
+			if r := recover(); r != nil {
+				i, e = nil, fmt.Errorf("panic")
+			}
+		}()
+		return disasm.Decode(buf)
+	}()
+	if err != nil || inst == nil {
+		return nil
+	}
+	if len(decodedInsts) < 4096 {
+		decodedInsts = append(decodedInsts, inst)
+	}
+	return inst
+}
+
+// decodePrologue decodes what every kernel starts with before any 32-bit half
+// of vcc/exec is named: 64-bit uses of the pairs.
+func decodePrologue() {
+	decodeWords(0xBE80010A | 106<<16)          // s_mov_b64 vcc, s[10:11]
+	decodeWords(0xBE80010A | 126<<16)          // s_mov_b64 exec, s[10:11]
+	decodeWords(0x86800000 | 106<<16 | 106<<8 | 126) // s_and_b64 vcc, exec, vcc
+	decodeWords(0xBE802000 | 12<<16 | 106)     // s_and_saveexec_b64 s[12:13], vcc
+	decodeWords(0xD1000005, 0x01A90300|0x6a<<18&0x07fc0000) // v_cndmask_b32_e64 v5, v0, v1, vcc
+}
+
+var specialCode = map[string]uint32{"vcclo": 106, "vcchi": 107, "m0": 124, "execlo": 126, "exechi": 127, "scc": 253}
+
+// decoded returns the operand the real disassembler produces for an instruction
+// that names the register of access a with the width a.Cnt stands for, or nil
+// if no instruction of the ISA subset does.  The operand is used as it comes
+// out of the decoder; if its RegCount is not the one the instruction's width
+// implies this is recorded (and the access shows what the simulator would do).
+func decoded(a *Acc, c *Case) *insts.Operand {
+	var inst *insts.Inst
+	var pick func(*insts.Inst) *insts.Operand
+	dst := func(i *insts.Inst) *insts.Operand { return i.Dst }
+	code, special := specialCode[a.Reg]
+	switch {
+	case a.Reg == "s" && a.Idx >= 0 && a.Idx <= 101:
+		code = uint32(a.Idx)
+	case special:
+	case a.Reg == "v" && a.Idx >= 0 && a.Idx <= 255:
+		switch a.Cnt {
+		case 0:
+			inst, pick = decodeWords(0x7E000300|uint32(a.Idx)<<17), dst // v_mov_b32 vN, v0
+		case 1:
+			inst, pick = decodeWords(0xD8000000|54<<17, uint32(a.Idx)<<24|0x01), dst // ds_read_b32 vN, v1
+		case 2, 3, 4:
+			inst, pick = decodeWords(0xDC000000|uint32(19+a.Cnt)<<18, uint32(a.Idx)<<24|0x02), dst // flat_load_dwordx2/3/4 v[N..], v[2:3]
+		}
+	default:
+		return nil
+	}
+	if inst == nil && pick == nil {
+		switch a.Cnt {
+		case 0:
+			if a.Reg == "scc" {
+				inst, pick = decodeWords(0xBE800000|253), func(i *insts.Inst) *insts.Operand { return i.Src0 } // s_mov_b32 s0, scc
+			} else {
+				inst, pick = decodeWords(0xBE800000|code<<16|0x80), dst // s_mov_b32 <reg>, 0
+			}
+		case 2:
+			inst, pick = decodeWords(0xBE800100|code<<16|0x80), dst // s_mov_b64 <reg pair>, 0
+		case 1, 4, 8, 16:
+			if a.Reg == "scc" {
+				return nil
+			}
+			op := map[int]uint32{1: 0, 4: 2, 8: 3, 16: 4}[a.Cnt]
+			inst, pick = decodeWords(0xC0020000|op<<18|code<<6, 0), func(i *insts.Inst) *insts.Operand { return i.Data } // s_load_dword{,x4,x8,x16} <reg>, s[0:1], 0x0
+		}
+	}
+	if inst == nil || pick == nil {
+		return nil
+	}
+	op := pick(inst)
+	if op == nil || op.OperandType != insts.RegOperand || op.Register == nil {
+		return nil
+	}
+	want := operand(a)
+	if op.Register != want.Register {
+		return nil // the word does not name this register (encoding not available): construct the operand instead
+	}
+	if op.RegCount != a.Cnt && !(op.RegCount <= 1 && a.Cnt <= 1) {
+		if c != nil && len(c.DecoderCountDrift) < 8 {
+			c.DecoderCountDrift = append(c.DecoderCountDrift, fmt.Sprintf("%s: operand %s has RegCount %d, the instruction's width says %d",
+				inst.InstName, op.Register.Name, op.RegCount, a.Cnt))
+		}
+	}
+	return op
+}
+
 type regState interface {
 	ReadOperand(operand *insts.Operand, laneID int) uint64
 	WriteOperand(operand *insts.Operand, laneID int, value uint64)
@@ -253,7 +560,7 @@ func toInts(b []byte) []int {
 	return xs
 }
 
-func do(st regState, a *Acc) (o *Obs, raw []byte) {
+func do(st regState, a *Acc, c *Case) (o *Obs, raw []byte) {
 	o = &Obs{}
 	defer func() {
 		if r := recover(); r != nil {
@@ -271,7 +578,10 @@ func do(st regState, a *Acc) (o *Obs, raw []byte) {
 		}
 		return o, nil
 	}
-	op := operand(a)
+	op := decoded(a, c) // the operand object the real disassembler attaches to an instruction naming this register
+	if op == nil {
+		op = operand(a) // shapes the decoder never produces (vcc/exec as register types, 3/8/16 dwords of VGPRs ...)
+	}
 	switch a.API {
 	case "rb":
 		raw = st.ReadOperandBytes(op, a.Lane, a.BC) // kept by the caller until the end of the history
@@ -347,30 +657,58 @@ func settle(o *Obs, raw []byte) {
 func (x *world) run(c *Case) {
 	heldE := make([][]byte, len(c.Accs))
 	heldT := make([][]byte, len(c.Accs))
+	var segs [][2]int // index ranges of the wavefront generations; a "newgen" access sits between two of them
+	start := 0
 	for i := range c.Accs {
-		a := &c.Accs[i]
-		a.Emu, a.Tim = nil, nil
-		if a.API == "reset" {
-			a.Side = "timing"
-			a.Tim = x.reset(a)
-			continue
+		if c.Accs[i].API == "newgen" {
+			segs = append(segs, [2]int{start, i})
+			start = i + 1
 		}
-		if a.Side != "timing" {
-			a.Emu, heldE[i] = do(x.ewf[a.W], a)
-		}
-		if a.Side != "emu" {
-			if a.API == "sload" || a.API == "vload" {
-				a.Tim = x.foreign(a)
+	}
+	segs = append(segs, [2]int{start, len(c.Accs)})
+	for g, seg := range segs {
+		g, seg := g, seg
+		x.generation(func() {
+			f := x.fresh()
+			if g == 0 {
+				c.Fresh0 = f
 			} else {
-				a.Tim, heldT[i] = do(x.twf[a.W], a)
+				na := &c.Accs[seg[0]-1]
+				na.Fresh, na.Emu, na.Tim, na.Side = f, &Obs{}, &Obs{}, "both"
 			}
-		}
+			x.fill()
+			for i := seg[0]; i < seg[1]; i++ {
+				a := &c.Accs[i]
+				a.Emu, a.Tim = nil, nil
+				if a.API == "reset" {
+					a.Side = "timing"
+					a.Tim = x.reset(a)
+					continue
+				}
+				if a.Side != "timing" {
+					a.Emu, heldE[i] = do(x.ewf[a.W], a, c)
+				}
+				if a.Side != "emu" {
+					if a.API == "sload" || a.API == "vload" {
+						a.Tim = x.foreign(a)
+					} else {
+						a.Tim, heldT[i] = do(x.twf[a.W], a, c)
+					}
+				}
+			}
+			// every answer is held by the caller until the wavefronts end: it must still be what was returned
+			for i := seg[0]; i < seg[1]; i++ {
+				settle(c.Accs[i].Emu, heldE[i])
+				settle(c.Accs[i].Tim, heldT[i])
+			}
+			if g == len(segs)-1 {
+				x.dump(c)
+			}
+		})
 	}
-	// every answer is held by the caller until the end of the history: it must still be what was returned
-	for i := range c.Accs {
-		settle(c.Accs[i].Emu, heldE[i])
-		settle(c.Accs[i].Tim, heldT[i])
-	}
+}
+
+func (x *world) dump(c *Case) {
 	c.EmuEnd = nil
 	for w, e := range x.ewf {
 		d := EmuDump{S: [][2]uint64{}, V: [][3]uint64{}, Vcc: e.VCC(), Exec: e.EXEC(), Scc: uint64(e.SCC()), M0: uint64(e.M0)}
@@ -455,12 +793,27 @@ func coqObs(o *Obs) string {
 	return "ODone"
 }
 
-func (c *Case) coq() string {
+// coq emits one term per wavefront generation: every generation starts from the
+// initial fill, so for the models it is a history of its own; only the last one
+// carries the final storage dump.
+func (c *Case) coq() []string {
+	var out []string
+	start := 0
+	for i := 0; i <= len(c.Accs); i++ {
+		if i == len(c.Accs) || c.Accs[i].API == "newgen" {
+			out = append(out, c.coqGen(start, i, i == len(c.Accs)))
+			start = i + 1
+		}
+	}
+	return out
+}
+
+func (c *Case) coqGen(from, to int, last bool) string {
 	var ws, as, es, ts []string
 	for _, w := range c.Waves {
 		ws = append(ws, fmt.Sprintf("mkWave %d %d %d %d %d", w.SOff, w.VOff, w.SIMD, w.NSgpr, w.NVgpr))
 	}
-	for i := range c.Accs {
+	for i := from; i < to; i++ {
 		a := &c.Accs[i]
 		var api string
 		switch a.API {
@@ -486,6 +839,9 @@ func (c *Case) coq() string {
 			continue
 		}
 		as = append(as, fmt.Sprintf("(mkAcc %d %s %s %d %d, %s, %s)", a.W, api, coqRegOf(a), a.Cnt, a.Lane, coqObs(a.Emu), coqObs(a.Tim)))
+	}
+	if !last {
+		return fmt.Sprintf("mkCase %s %s [] ([], [], [])", vh.CoqList(ws), vh.CoqList(as))
 	}
 	for _, d := range c.EmuEnd {
 		var ss, vs []string
@@ -711,8 +1067,18 @@ func genCase(r *vh.Rng, k int) *Case {
 	nw := len(c.Waves)
 	n := 10 + r.Intn(51)
 	resetAt := r.Intn(n)
+	newgenAt, newgenAt2 := 3+r.Intn(n-3), -1
+	if r.Intn(3) == 0 {
+		newgenAt2 = 3 + r.Intn(n-3)
+	}
 	var written []Acc
 	for i := 0; i < n; i++ {
+		if k%4 == 2 && (i == newgenAt || i == newgenAt2) && i > 0 {
+			// the wavefronts end (release) and the compute units receive a new work-group at the same offsets
+			c.Accs = append(c.Accs, Acc{API: "newgen", Side: "both"})
+			written = nil
+			continue
+		}
 		a := Acc{W: r.Intn(nw)}
 		var wd int
 		if !c.Hostile && r.Intn(100) < 9 {
@@ -744,7 +1110,7 @@ func genCase(r *vh.Rng, k int) *Case {
 					cnt = 1
 				}
 				a.API, a.Reg, a.Idx, a.Cnt = "vload", "v", pickIdx(r, wv.NVgpr, cnt), cnt
-				if r.Intn(3) == 0 {
+				if r.Intn(6) == 0 {
 					for l := 0; l < 64; l++ {
 						a.Lanes = append(a.Lanes, l)
 					}
@@ -945,6 +1311,69 @@ func shapes() [][2]string {
 	return out
 }
 
+// aliasing decodes pairs of instructions that name the same register and
+// checks that the operand objects of one instruction are its own: not the
+// same object as another instruction's, and not changed by decoding (or by
+// patching the RegCount of) another instruction.
+func aliasing() []string {
+	var out []string
+	note := func(f string, a ...interface{}) {
+		if len(out) < 12 {
+			out = append(out, fmt.Sprintf(f, a...))
+		}
+	}
+	ops := func(i *insts.Inst) []*insts.Operand {
+		return []*insts.Operand{i.Src0, i.Src1, i.Src2, i.Dst, i.SDst, i.Addr, i.Data, i.Data1, i.Base, i.Offset}
+	}
+	for code := uint32(0); code < 128; code++ {
+		if code > 8 && code < 100 {
+			continue
+		}
+		a := decodeWords(0xBE800000 | code<<16 | 0x80) // s_mov_b32 <code>, 0
+		if a == nil || a.Dst == nil || a.Dst.OperandType != insts.RegOperand {
+			continue
+		}
+		name, cnt := a.Dst.Register.Name, a.Dst.RegCount
+		b := decodeWords(0xBE800100 | code<<16 | 0x80) // s_mov_b64 <code>, 0   (64-bit use of the same operand code)
+		c := decodeWords(0xBE800000 | code<<16 | 0x80)
+		if a.Dst.RegCount != cnt {
+			note("s_mov_b32 %s, 0: RegCount of its destination operand changed from %d to %d when s_mov_b64 with the same operand code was decoded", name, cnt, a.Dst.RegCount)
+		}
+		if c != nil && c.Dst != nil && c.Dst.RegCount != cnt {
+			note("s_mov_b32 %s, 0 decoded after s_mov_b64 of the same operand code: destination RegCount %d instead of %d", name, c.Dst.RegCount, cnt)
+		}
+		for _, other := range []*insts.Inst{b, c} {
+			if other == nil {
+				continue
+			}
+			for _, o := range ops(other) {
+				if o != nil && o == a.Dst {
+					note("operand object of %s is shared between two decoded instructions", name)
+				}
+			}
+		}
+		if c != nil && c.Dst != nil && c.Dst != a.Dst {
+			old := a.Dst.RegCount
+			c.Dst.RegCount = 7
+			if a.Dst.RegCount != old {
+				note("mutating the operand %s of one instruction changes another instruction", name)
+			}
+			c.Dst.RegCount = old
+		}
+	}
+	for _, code := range []uint32{106, 126, 253, 124, 4} { // as sources
+		a := decodeWords(0xBE800000 | 5<<16 | code)
+		b := decodeWords(0xBE800100 | 6<<16 | code)
+		if a != nil && b != nil && a.Src0 != nil && a.Src0 == b.Src0 {
+			note("source operand object (code %d) is shared between two decoded instructions", code)
+		}
+		if a != nil && a.Src0 != nil && a.Src0.OperandType == insts.RegOperand && a.Src0.RegCount > 1 {
+			note("s_mov_b32 s5, <code %d>: source RegCount %d after a 64-bit use was decoded", code, a.Src0.RegCount)
+		}
+	}
+	return out
+}
+
 // ---------------------------------------------------------------- main
 
 func main() {
@@ -954,6 +1383,7 @@ func main() {
 	replay := flag.String("replay", "", "JSON list of cases to run instead of generating")
 	doShapes := flag.Bool("shapes", false, "print the (register, RegCount) shapes the disassembler produces")
 	flag.Parse()
+	decodePrologue()
 	log.SetOutput(io.Discard) // log.Panicf of the register stores is observed through recover
 
 	if *doShapes {
@@ -976,7 +1406,12 @@ func main() {
 			}
 			sizes[n] = r.ByteSize
 		}
-		b, _ := json.Marshal(map[string]interface{}{"shapes": shapes(), "bytesize": sizes})
+		sh := shapes()
+		al := aliasing()
+		if al == nil {
+			al = []string{}
+		}
+		b, _ := json.Marshal(map[string]interface{}{"shapes": sh, "bytesize": sizes, "aliasing": al})
 		writeOut(*out, b)
 		return
 	}
